@@ -19,7 +19,7 @@ def render : Routed → String
   | .notResponder => "muxer:not-responder"
   | .notInitiator => "muxer:not-initiator"
   | .unknown id => s!"muxer:unknown-protocol({id})"
-  | .deliver n _ => s!"proto:{stripMode n}"
+  | .deliver n _ => s!"proto:{stripMode n.key}"
 
 /-- The property, independently of `registered`/`route`: which protocol ids the negotiation
     enabled for this mode and version (by the version table's flags), and whether the
